@@ -276,6 +276,10 @@ impl CachedTimeZone {
         let path = &info.inner.full;
         #[cfg(jiff_verif)]
         crate::verif::point("zi.new.open");
+        #[cfg(jiff_verif)]
+        if crate::verif::fault("zi.new.open") {
+            return Err(Error::io(crate::verif::injected_error()).path(path));
+        }
         let mut file =
             File::open(path).map_err(|e| Error::io(e).path(path))?;
         // The last modified time must be read *before* the data. If the
@@ -289,6 +293,10 @@ impl CachedTimeZone {
         let mut data = vec![];
         #[cfg(jiff_verif)]
         crate::verif::point("zi.new.read");
+        #[cfg(jiff_verif)]
+        if crate::verif::fault("zi.new.read") {
+            return Err(Error::io(crate::verif::injected_error()).path(path));
+        }
         file.read_to_end(&mut data).map_err(|e| Error::io(e).path(path))?;
         let tz = TimeZone::tzif(&info.inner.original, &data)
             .map_err(|e| e.path(path))?;
@@ -636,6 +644,11 @@ fn walk(start: &Path) -> Result<Vec<ZoneInfoName>, Error> {
     while let Some(dir) = stack.pop() {
         #[cfg(jiff_verif)]
         crate::verif::point("zi.walk.read_dir");
+        #[cfg(jiff_verif)]
+        if crate::verif::fault("zi.walk.read_dir") {
+            seterr(&dir, Error::io(crate::verif::injected_error()));
+            continue;
+        }
         let readdir = match dir.read_dir() {
             Ok(readdir) => readdir,
             Err(err) => {
@@ -684,6 +697,11 @@ fn walk(start: &Path) -> Result<Vec<ZoneInfoName>, Error> {
             // file to do a low false positive and never false negative check
             // for a TZif file.
 
+            #[cfg(jiff_verif)]
+            if crate::verif::fault("zi.walk.open") {
+                seterr(&path, Error::io(crate::verif::injected_error()));
+                continue;
+            }
             let mut f = match File::open(&path) {
                 Ok(f) => f,
                 Err(err) => {
